@@ -773,7 +773,7 @@ const GOOD_HOSTS: [&str; 6] = [
     "0.0.0.0 a.a#c",
     "SUB.Example.COM",
 ];
-const JUNK_HOSTS: [&str; 7] = [
+const JUNK_HOSTS: [&str; 9] = [
     "",
     "# comment",
     "! Title: x",
@@ -781,6 +781,9 @@ const JUNK_HOSTS: [&str; 7] = [
     "0.0.0.0 a.a b.b",
     "com",
     "||cdn.net^",
+    // hosts whose conversion to punycode fails (rejected late, after part of the work is done)
+    "0.0.0.0 ads\u{fffd}.tracker.example",
+    "xn--\u{e9}.tracker.example",
 ];
 
 fn rejected_by_parse_filter(line: &str, o: ParseOptions) -> Result<bool, String> {
